@@ -1,4 +1,5 @@
 import ZipVerif.Basic.RsL
+import ZipVerif.Spec.Utf8
 /-
 Vocabulary of `std::path` and of the string methods used next to it, for the LAYER mode of rs2lean
 (types.rs: `enclosed_name`, `file_name_sanitized`; read.rs: `path_depth`).  Unix host.
@@ -8,7 +9,16 @@ Trusted vocabulary:
     (`Path::new(s)` is the identity).
   * `s.contains(c)` / `s.find(c)` for an ASCII `char` literal look for its byte (in UTF-8 a byte below 0x80
     occurs only as that character); other arguments are outside the subset.
-  * `std::path::Component` is `Rs.Component` (payloads: the bytes of the `OsStr`).
+  * `c.to_string()` of a `char` is its UTF-8 encoding (`Spec.utf8EncodeChar`, RFC 3629).
+  * `&s[a..b]` on a `str` is the byte slice; it panics on a bad range and when `a` or `b` is not a character
+    boundary (`str::is_char_boundary`: 0, the length, or the index of a byte that is not a continuation byte 10xxxxxx).
+  * `s.replace(pat, to)` with `&str` arguments replaces every non-overlapping occurrence of the BYTES of `pat`, found
+    left to right (what `StrSearcher` does; an occurrence of well-formed UTF-8 inside well-formed UTF-8 starts at a
+    character boundary).  The empty pattern matches at every character boundary.
+  * `std::path::MAIN_SEPARATOR` is '/' (Unix host).
+  * `std::path::Component` is `Rs.Component` (payloads: the bytes of the `OsStr`); `Component::as_os_str` gives the
+    payload, "/" for `RootDir`, "." for `CurDir`, ".." for `ParentDir`.
+  * `iter.filter(p)` on the list of components is `List.filter`.
   * `Path::components()` and `PathBuf::push` are the NAMED PARAMETERS `PathOps.components` /
     `PathOps.push` — arbitrary functions here; the Tie instantiates them with the functions of
     `Model/Paths.lean` (validated against std by the exhaustive `paths` correspondence stream).
@@ -32,5 +42,52 @@ class PathOps where
 
 /-- `s.contains(c)` for an ASCII `char` literal `c` (given by its code) -/
 def Str.containsAscii (s : Bytes) (c : Nat) : Bool := s.contains (UInt8.ofNat c)
+
+/-- `s.find(c)` for an ASCII `char` literal `c` (given by its code): the byte index of the first occurrence -/
+def Str.findAscii (s : Bytes) (c : Nat) : Option UInt64 :=
+  (s.findIdx? (· == UInt8.ofNat c)).map UInt64.ofNat
+
+/-- `s.is_char_boundary(i)`: `i == 0`, or `i == s.len()`, or the byte at `i` is not a continuation byte
+(`(b as i8) >= -0x40`) -/
+def Str.isCharBoundary (s : Bytes) (i : Nat) : Bool :=
+  i == 0 ||
+    match s[i]? with
+    | some b => decide (b < 0x80) || decide (b ≥ 0xC0)
+    | none => i == s.length
+
+/-- `&s[lo..hi]` on a `str`: panics unless `lo ≤ hi ≤ s.len()` and both are character boundaries -/
+def Str.slice (s : Bytes) (lo hi : UInt64) : Option Bytes :=
+  if lo.toNat ≤ hi.toNat ∧ hi.toNat ≤ s.length ∧ Str.isCharBoundary s lo.toNat ∧ Str.isCharBoundary s hi.toNat then
+    some ((s.take hi.toNat).drop lo.toNat)
+  else none
+
+/-- `c.to_string()` -/
+def Str.ofChar (c : Char) : Bytes := ZipVerif.Spec.utf8EncodeChar c
+
+/-- the search of `Str.replace` for a non-empty pattern: `skip` bytes of a match still to be dropped -/
+def Str.replaceGo (pat to : Bytes) : Bytes → Nat → Bytes
+  | [], _ => []
+  | _ :: r, skip + 1 => Str.replaceGo pat to r skip
+  | b :: r, 0 =>
+    if pat.isPrefixOf (b :: r) then to ++ Str.replaceGo pat to r (pat.length - 1)
+    else b :: Str.replaceGo pat to r 0
+
+/-- `s.replace(pat, to)` with `&str` arguments -/
+def Str.replace (s pat to : Bytes) : Bytes :=
+  if pat.isEmpty then
+    -- a match at every character boundary: in front of every byte that starts a character, and at the end
+    s.foldr (fun b acc => (if decide (b < 0x80) || decide (b ≥ 0xC0) then to else []) ++ b :: acc) to
+  else Str.replaceGo pat to s 0
+
+/-- `std::path::MAIN_SEPARATOR` (Unix) -/
+def Path.MAIN_SEPARATOR : Char := '/'
+
+/-- `Component::as_os_str` (Unix) -/
+def Component.as_os_str : Component → Bytes
+  | .Prefix p => p
+  | .RootDir => [0x2F]
+  | .CurDir => [0x2E]
+  | .ParentDir => [0x2E, 0x2E]
+  | .Normal s => s
 
 end Rs
